@@ -229,9 +229,17 @@ def run_engine_gen(engine, tier, seed, outpath, extra=None):
 
 
 def run_engine_replay(engine, lines, timeout=600):
-    p = subprocess.run([engine_bin(engine), "replay"], input="\n".join(lines) + "\n", capture_output=True,
-                       text=True, timeout=timeout)
-    return [l for l in p.stdout.splitlines() if l.strip()]
+    try:
+        p = subprocess.run([engine_bin(engine), "replay"], input="\n".join(lines) + "\n", capture_output=True,
+                           text=True, timeout=timeout)
+        out = p.stdout
+    except subprocess.TimeoutExpired as e:
+        # a replay that crawls (cases that sleep, calls that block): keep the complete lines produced so far
+        out = e.stdout or ""
+        if isinstance(out, bytes):
+            out = out.decode("utf-8", "replace")
+        out = out[:out.rfind("\n") + 1]
+    return [l for l in out.splitlines() if l.strip()]
 
 
 def run_driver(prop, lines):
@@ -323,7 +331,8 @@ def shrink(engine, prop, caseline, want, budget=400):
         return best, None
     tries = 0
     improved = True
-    while improved and tries < budget:
+    t_start = time.time()
+    while improved and tries < budget and time.time() - t_start < 90:
         improved = False
         fields = best.split(" ")
         allowed = SHRINK_FIELDS.get(fields[0], [])
@@ -347,7 +356,7 @@ def shrink(engine, prop, caseline, want, budget=400):
             elif f not in ("-",) and not f.isdigit() and len(f) > 1 and "," not in f and re.fullmatch(r"[a-z]?[0-9a-f]+", f):
                 pass
             for c in cands:
-                if tries >= budget:
+                if tries >= budget or time.time() - t_start >= 90:
                     break
                 if c == "":
                     c = "-"
@@ -548,7 +557,10 @@ def check(prop, tier):
                 cands = eng["continuations"](small)
                 for base in [l.split(" => ")[0] for (m, _) in dis[:5] for l in [lines[m - 1]]]:
                     cands += eng["continuations"](base)[:400]
-                outl = run_engine_replay(engine_of(small, engine), cands[:20000])
+                # cases that let seconds pass are not multiplied
+                if any(re.search(r"[ ,]w\d{3,}", c) for c in cands[:3]):
+                    cands = cands[:20]
+                outl = run_engine_replay(engine_of(small, engine), cands[:20000], timeout=300)
                 ev2, _ = run_driver(prop, outl)
                 for k, m, rr in ev2:
                     if k == "P" and rr.startswith(prop + " "):
